@@ -10,6 +10,7 @@ import (
 	"reflect"
 	"sort"
 	"strings"
+	"sync"
 	"testing"
 
 	"github.com/gookit/rux"
@@ -210,6 +211,51 @@ func runHistory(p program, hist []req, classify bool) string {
 					evicted[k] = true
 				}
 			}
+		}
+	}
+	// at the end the requests of the history arrive once more, all at the same time, on the caching router (a server
+	// serves in parallel): each is answered as the twin without cache answers it alone
+	if len(hist)%4 == 1 {
+		type answer struct {
+			q    req
+			want string
+		}
+		var qs []answer
+		for _, q := range hist {
+			if !strings.HasPrefix(q.method, "+") {
+				rec := httptest.NewRecorder()
+				b.ServeHTTP(rec, &http.Request{Method: q.method, URL: &url.URL{Path: q.path}, Header: http.Header{}, Proto: "HTTP/1.1"})
+				qs = append(qs, answer{q, fmt.Sprintf("%d %q", rec.Code, rec.Body.String())})
+			}
+		}
+		bad := make(chan string, 4)
+		var wg sync.WaitGroup
+		for g := 0; g < 4 && len(qs) > 0; g++ {
+			wg.Add(1)
+			go func(g int) {
+				defer wg.Done()
+				for k := 0; k < 3*len(qs); k++ {
+					x := qs[(g+k)%len(qs)]
+					rec := httptest.NewRecorder()
+					a.ServeHTTP(rec, &http.Request{Method: x.q.method, URL: &url.URL{Path: x.q.path}, Header: http.Header{}, Proto: "HTTP/1.1"})
+					if got := fmt.Sprintf("%d %q", rec.Code, rec.Body.String()); got != x.want {
+						select {
+						case bad <- fmt.Sprintf("%s %q answered %s by the caching router while 3 other requests were in flight, the twin without cache answers %s\n history: %v\n program: %s", x.q.method, x.q.path, got, x.want, hist, p):
+						default:
+						}
+						return
+					}
+				}
+			}(g)
+		}
+		wg.Wait()
+		select {
+		case msg := <-bad:
+			return msg
+		default:
+		}
+		if classify {
+			ev.Class("history:replayed-by-4-goroutines-at-once")
 		}
 	}
 	if classify {
